@@ -435,6 +435,7 @@ func vTry(f func()) (panicked bool) {
 	f()
 	return false
 }
+func vLearnBits(x uint64, w int) {}
 func vOverlap(a, b []byte) bool {
 	if cap(a) == 0 || cap(b) == 0 {
 		return false
